@@ -12,7 +12,9 @@ import (
 	"fmt"
 	"os"
 	"path/filepath"
+	"regexp"
 	"runtime"
+	"strconv"
 	"strings"
 	"sync"
 	"sync/atomic"
@@ -39,7 +41,21 @@ var (
 	logBy  map[string][]seen // program -> processed (file, line) in order
 	prefix string
 	jit    atomic.Uint64
+	stall  atomic.Int64 // per-line stall in ns applied at the VM line hook (the slow runs)
 )
+
+// readBufferSize is logstream's read buffer size, taken from the tree under
+// test so that line ends can be placed exactly on a read boundary.
+func readBufferSize() int {
+	b, _ := os.ReadFile(filepath.Join(ev.Repo(), "internal/tailer/logstream/logstream.go"))
+	if m := regexp.MustCompile(`defaultReadBufferSize\s*=\s*(\d+)`).FindSubmatch(b); m != nil {
+		n, _ := strconv.Atoi(string(m[1]))
+		if n > 0 {
+			return n
+		}
+	}
+	return 131072
+}
 
 func jitter() {
 	x := jit.Add(0x9E3779B97F4A7C15)
@@ -66,7 +82,7 @@ type runSpec struct {
 func TestC19(t *testing.T) {
 	r := ev.Start(t, "C19", "exploration")
 	defer r.Finish()
-	r.Rule("one-shot mtail.Server runs with a program directory of 1-3 generated programs (some raising runtime errors) and 1-3 log files with random contents (incl. empty files and a final unterminated line), under GOMAXPROCS in {1,2,4,16} and PRNG jitter at the VM line hook. Checked: Run returns (60s watchdog, goroutine dump as witness); per program and file the processed lines are exactly the file's lines in file order, each once; the final exported store equals the reference interpreter run on the observed per-program interleaving. Non-trivial: >=2 files or >=2 programs and >=1 line changing the store; distinct by run index.")
+	r.Rule("one-shot mtail.Server runs with a program directory of 1-3 generated programs (some raising runtime errors) and 1-3 log files with random contents (incl. empty files and a final unterminated line; every 8th run one file larger than the read buffer with an LF or CRLF line end placed on the buffer boundary; the last run(s) stalled at the hook so that the whole run lasts 6.5 s / 35 s), under GOMAXPROCS in {1,2,4,16} and PRNG jitter at the VM line hook. Checked: Run returns (60s watchdog, goroutine dump as witness); per program and file the processed lines are exactly the file's lines in file order, each once; the final exported store equals the reference interpreter run on the observed per-program interleaving. Non-trivial: >=2 files or >=2 programs and >=1 line changing the store; distinct by run index.")
 	r.Assume("the reference is evaluated on the interleaving each program actually observed, so no search over interleavings is needed", "cases in which the reference needs unspecified behaviour (NaN ordering, else/otherwise ambiguity) are abandoned and counted")
 	lh := func(id uint64, name string, l *logline.LogLine, phase int) {
 		if phase != 0 {
@@ -78,6 +94,9 @@ func TestC19(t *testing.T) {
 		}
 		logMu.Unlock()
 		jitter()
+		if d := stall.Load(); d > 0 {
+			time.Sleep(time.Duration(d))
+		}
 	}
 	vm.VerifLineHook.Store(&lh)
 	defer vm.VerifLineHook.Store(nil)
@@ -86,8 +105,17 @@ func TestC19(t *testing.T) {
 	defer os.RemoveAll(base)
 	runs := ev.Pick(120, 4000)
 	rng := ev.NewRNG(ev.Seed(), "c19")
+	bufSize := readBufferSize()
+	// the last runs are slow ones: every line is stalled at the hook so that
+	// the run as a whole lasts 6.5 s (and 35 s in the thorough tier) — long
+	// enough for any time-based shortcut in start-up / shutdown to matter
+	slowRuns := map[int]time.Duration{runs - 1: 6500 * time.Millisecond}
+	if ev.Thorough() {
+		slowRuns[runs-2] = 35 * time.Second
+	}
 	for run := 0; run < runs; run++ {
 		g := rng.Sub(run)
+		stall.Store(0)
 		runtime.GOMAXPROCS([]int{1, 2, 4, 16}[run%4])
 		dir := filepath.Join(base, fmt.Sprintf("r%d", run))
 		progDir := filepath.Join(dir, "progs")
@@ -120,11 +148,15 @@ func TestC19(t *testing.T) {
 			continue
 		}
 		nf := g.Range(1, 3)
+		big := run%8 == 5 // one file larger than the read buffer, a line end placed on the buffer boundary
 		var paths []string
 		for f := 0; f < nf; f++ {
 			n := g.Intn(25)
 			if g.Intn(6) == 0 {
 				n = 0
+			}
+			if _, slow := slowRuns[run]; slow {
+				n = 30 + g.Intn(20)
 			}
 			var ls []string
 			for k := 0; k < n; k++ {
@@ -142,12 +174,47 @@ func TestC19(t *testing.T) {
 			if len(ls) > 0 {
 				content = strings.Join(ls, "\n") + "\n"
 			}
+			if big && f == 0 {
+				// CRLF or LF line ends; the line end that crosses the first read
+				// boundary is placed so that the boundary falls before the CR,
+				// between CR and LF, or after the LF
+				eol := []string{"\r\n", "\n"}[g.Intn(2)]
+				at := bufSize - 2 + g.Intn(3) // offset at which the boundary line's terminator starts
+				var b strings.Builder
+				ls = ls[:0]
+				for b.Len() < bufSize+2000 {
+					l := gen.GenLine(g)
+					if l == "" {
+						l = "blank"
+					}
+					if room := at - b.Len(); room >= 0 && room < len(l)+200 {
+						// this line ends at the boundary: pad or cut it to fit
+						for len(l) < room {
+							l += " pad"
+						}
+						l = l[:room]
+						if l == "" {
+							l = "x"
+						}
+					}
+					ls = append(ls, l)
+					b.WriteString(l + eol)
+				}
+				content = b.String()
+				r.Count("big_files_with_line_end_on_read_boundary", 1)
+			}
 			content += tail
 			p := filepath.Join(dir, fmt.Sprintf("log%d", f))
 			_ = os.WriteFile(p, []byte(content), 0o644)
 			paths = append(paths, p)
 			spec.Files = append(spec.Files, ls)
 			spec.Tails = append(spec.Tails, tail)
+		}
+		if d, ok := slowRuns[run]; ok && totalLines(spec) > 0 {
+			// lines of one VM are sequential: per-line stall = duration / lines of the busiest program
+			stall.Store(int64(d) / int64(totalLines(spec)))
+			r.Count("slow_runs", 1)
+			r.Set(fmt.Sprintf("slow_run_%d_target_s", run), d.Seconds())
 		}
 		store := metrics.NewStore()
 		ctx, cancel := context.WithCancel(context.Background())
@@ -162,7 +229,7 @@ func TestC19(t *testing.T) {
 		r.Eval(1)
 		select {
 		case <-done:
-		case <-time.After(60 * time.Second):
+		case <-time.After(60*time.Second + 3*slowRuns[run]):
 			d := dump()
 			cancel()
 			r.Violation("run-did-not-terminate", map[string]any{"spec": spec, "what": "Server.Run did not return within 60s in one-shot mode", "goroutines": d})
@@ -273,7 +340,14 @@ func TestC19(t *testing.T) {
 			}
 		}
 	}
+	stall.Store(0)
+	if r.Violations() == 0 {
+		r.Floor("slow_runs", 1)
+		r.Floor("big_files_with_line_end_on_read_boundary", 3)
+	}
 }
+
+func init() { _ = strconv.Itoa }
 
 func totalLines(s runSpec) int {
 	n := 0
